@@ -104,6 +104,9 @@ package upstream
 //@   ensures [exact]   forall k any :: typeis(k, "string") ==> (us.m.dom[k] <==> configuredUpstream(opts, unbox(k, "string")))
 //@   ensures [rebuilt] forall j int :: 0 <= j && j < len(opts) ==> fresh(unbox(us.m.vals[box(opts[j].Name)], "*upstreamServer")) && unbox(us.m.vals[box(opts[j].Name)], "*upstreamServer") != nil
 //@   ensures [others]  forall k any :: !typeis(k, "string") ==> us.m.dom[k] == old(us.m.dom[k])
+// no gap: while the replacement of an upstream is being built (its first health check is synchronous and
+// may take seconds) the old one is still registered - "store the new one, then destroy the old one"
+//@   precall github.com/vicanso/pike/upstream.NewUpstreamServer#0 [no-gap] old(us.m.dom[box(opt.Name)]) ==> us.m.dom[box(opt.Name)]
 //@   loop 0: modifies nothing
 //@   loop 0: invariant [idx]   -1 <= $idx && $idx < len(servers)
 //@   loop 1: modifies us.m.dom, us.m.vals
@@ -111,6 +114,7 @@ package upstream
 //@   loop 1: invariant [keep]  forall k any :: typeis(k, "string") && !configuredUpstream(opts, unbox(k, "string")) ==> !us.m.dom[k]
 //@   loop 1: invariant [added] forall j int :: 0 <= j && j <= $idx ==> us.m.dom[box(opts[j].Name)] && fresh(unbox(us.m.vals[box(opts[j].Name)], "*upstreamServer")) && unbox(us.m.vals[box(opts[j].Name)], "*upstreamServer") != nil
 //@   loop 1: invariant [others] forall k any :: !typeis(k, "string") ==> us.m.dom[k] == old(us.m.dom[k])
+//@   loop 1: invariant [kept]  forall k any :: old(us.m.dom[k]) && typeis(k, "string") && configuredUpstream(opts, unbox(k, "string")) ==> us.m.dom[k]
 
 // ---- the proxied call (elton middleware.NewProxy + httputil.ReverseProxy), assumed -----------
 // It contacts one upstream server chosen by the target picker, writes status, header and body
